@@ -237,28 +237,6 @@ Proof.
     constructor; auto.
 Qed.
 
-(* ---------- the regular expression as it is ($): the same, or the same followed by one newline ---------- *)
-Theorem parse_dollar s : parse_language s = parse_language_Z s \/
-  (exists s', s = s' ++ [10] /\ parse_language s = parse_language_Z s' /\ exists l, parse_language_Z s' = Ok l).
-Proof.
-  destruct (parse_gen_total at_dollar s) as [H|[l H]].
-  - left. unfold parse_language. rewrite H.
-    destruct (parse_gen_total at_end s) as [H'|[l' H']]; [unfold parse_language_Z; congruence|].
-    exfalso. apply parse_gen_sound in H'. destruct H' as (ll & cc & en & md & r & -> & Hr & Hw & ->).
-    apply at_end_true in Hr. subst r. destruct Hw as (H1 & H2 & H3 & H4 & H5).
-    rewrite (parse_gen_complete at_dollar ll cc en md [] H1 H2 H3 H4 H5 (or_introl eq_refl)) in H. discriminate.
-  - pose proof H as H0. apply parse_gen_sound in H. destruct H as (ll & cc & en & md & r & -> & Hr & Hw & ->).
-    destruct Hw as (H1 & H2 & H3 & H4 & H5).
-    apply at_dollar_true in Hr. destruct Hr as [-> | ->].
-    + left. unfold parse_language, parse_language_Z.
-      rewrite !(parse_gen_complete _ ll cc en md [] H1 H2 H3 H4 H5 (or_introl eq_refl)). reflexivity.
-    + right. exists (render ll cc en md). split; [reflexivity|].
-      pose proof (parse_gen_complete at_end ll cc en md [] H1 H2 H3 H4 H5 (or_introl eq_refl)) as HZ.
-      rewrite app_nil_r in HZ. unfold parse_language, parse_language_Z. rewrite HZ.
-      rewrite (parse_gen_complete at_dollar ll cc en md [10] H1 H2 H3 H4 H5 (or_intror eq_refl)).
-      cbn [at_dollar at_end N.eqb Pos.eqb]. eauto.
-Qed.
-
 Lemma locale_chars ll cc en md : parts_wf ll cc en md -> Forall (fun c => c <> 10) (locale_text ll cc en md).
 Proof.
   intros (_ & Hl & Hc & He & Hm). unfold locale_text.
@@ -280,42 +258,21 @@ Proof.
   apply Forall_app in Hw. destruct Hw as [_ Hw]. inversion Hw; subst. congruence.
 Qed.
 
-Theorem parse_guarded s : ~ ends_with_newline s -> parse_language s = parse_language_Z s.
-Proof.
-  intros Hn. destruct (parse_dollar s) as [H|(s' & -> & _)]; [exact H|].
-  exfalso. apply Hn. exists s'. reflexivity.
-Qed.
+(* ---------- the regular expression as it is (\Z) ---------- *)
+Lemma parse_is_Z s : parse_language s = parse_language_Z s.
+Proof. reflexivity. Qed.
 
-Theorem roundtrip_guarded s l : ~ ends_with_newline s -> parse_language s = Ok l ->
-  same_up_to_encoding_case s (str_language l).
-Proof. intros Hn H. rewrite (parse_guarded s Hn) in H. apply roundtrip_Z; exact H. Qed.
+Theorem roundtrip s l : parse_language s = Ok l -> same_up_to_encoding_case s (str_language l).
+Proof. exact (roundtrip_Z s l). Qed.
 
-Theorem reject_iff_dollar s : parse_language s = Err LSyntax <->
-  ~ (locale_grammar s \/ exists s', s = s' ++ [10] /\ locale_grammar s').
-Proof.
-  destruct (parse_dollar s) as [H|(s' & -> & H & l & Hl)].
-  - rewrite H, reject_iff_Z. split.
-    + intros G [G1|(s' & -> & G2)]; [auto|].
-      (* s' ++ [10] accepted by $ as s' *)
-      destruct G2 as [ll cc en md Hw]. apply parts_wf_ok in Hw. destruct Hw as (H1 & H2 & H3 & H4 & H5).
-      pose proof (parse_gen_complete at_dollar ll cc en md [10] H1 H2 H3 H4 H5 (or_intror eq_refl)) as HD.
-      cbn [at_dollar N.eqb Pos.eqb] in HD.
-      assert (HZ : parse_language_Z (locale_text ll cc en md ++ [10]) = Err LSyntax).
-      { apply reject_iff_Z. exact G. }
-      unfold parse_language in H. change (locale_text ll cc en md) with (render ll cc en md) in *. congruence.
-    + intros G G1. apply G. auto.
-  - rewrite H, Hl. split; [discriminate|]. intros G. exfalso. apply G. right. exists s'. split; [reflexivity|].
-    apply parse_Z_ok_iff in Hl. destruct Hl as (ll & cc & en & md & Hw & -> & _). constructor; auto.
-Qed.
-
-Theorem reject_iff_guarded s : ~ ends_with_newline s -> (parse_language s = Err LSyntax <-> ~ locale_grammar s).
-Proof. intros Hn. rewrite (parse_guarded s Hn). apply reject_iff_Z. Qed.
+Theorem reject_iff s : parse_language s = Err LSyntax <-> ~ locale_grammar s.
+Proof. exact (reject_iff_Z s). Qed.
 
 Theorem parse_no_crash s c : parse_language s <> Crash c.
-Proof. destruct (parse_gen_total at_dollar s) as [H|[l H]]; unfold parse_language; congruence. Qed.
+Proof. destruct (parse_gen_total at_end s) as [H|[l H]]; unfold parse_language; congruence. Qed.
 
 Theorem parse_err_syntax s e : parse_language s = Err e -> e = LSyntax.
-Proof. destruct e; [reflexivity|]. destruct (parse_gen_total at_dollar s) as [H|[l H]]; unfold parse_language; congruence. Qed.
+Proof. destruct e; [reflexivity|]. destruct (parse_gen_total at_end s) as [H|[l H]]; unfold parse_language; congruence. Qed.
 
 (* printing then parsing a well-formed Language object gives it back *)
 Definition language_wf (l : language) : Prop :=
@@ -326,9 +283,9 @@ Theorem print_parse l : language_wf l -> parse_language (str_language l) = Ok l.
 Proof.
   intros [Hw Hu]. destruct l as [ll cc en md]; cbn [l_lang l_terr l_enc l_mod] in *.
   apply parts_wf_ok in Hw. destruct Hw as (H1 & H2 & H3 & H4 & H5).
-  pose proof (parse_gen_complete at_dollar ll cc en md [] H1 H2 H3 H4 H5 (or_introl eq_refl)) as H.
+  pose proof (parse_gen_complete at_end ll cc en md [] H1 H2 H3 H4 H5 (or_introl eq_refl)) as H.
   rewrite app_nil_r in H. unfold parse_language, str_language. cbn [l_lang l_terr l_enc l_mod]. rewrite H.
-  cbn [at_dollar]. destruct en as [e|]; cbn [option_map]; [|reflexivity].
+  cbn [at_end]. destruct en as [e|]; cbn [option_map]; [|reflexivity].
   change (map ascii_upper e) with (map up e). rewrite Hu. reflexivity.
 Qed.
 
